@@ -325,6 +325,42 @@ func vpC31OversizeHeader(src, dst *QuicClient, announced uint32, limit uint32, f
 	return nil
 }
 
+// vpC31Truncated: the sender announces n bytes, writes only k < n of them and
+// then finishes its stream gracefully (a write deadline firing inside a large
+// bundle followed by shutdown does this). What arrived is not the message.
+func vpC31Truncated(src, dst *QuicClient, n, k int, seed uint64) error {
+	header := []byte{TransportMessageVersion, 0, 0, 0, 0, 0}
+	binary.BigEndian.PutUint32(header[2:], uint32(n))
+	body := vpC31Fill(seed, n)[:k]
+	werr, trouble := vpC31Await("truncated frame write", func() error {
+		if err := src.stream.SetWriteDeadline(time.Now().Add(vpC31Guard)); err != nil {
+			return err
+		}
+		if _, err := src.stream.Write(append(header, body...)); err != nil {
+			return err
+		}
+		return src.stream.Close()
+	})
+	if trouble != nil {
+		return trouble
+	}
+	if werr != nil {
+		return vpC31Troublef("truncated frame write: %v", werr)
+	}
+	r, trouble := vpC31Recv(dst, TransportMessageMaxSize)
+	if trouble != nil {
+		return trouble
+	}
+	if r.err == nil {
+		got := -1
+		if r.msg != nil {
+			got = len(r.msg.Data)
+		}
+		return fmt.Errorf("a frame announcing %d bytes of which %d were sent before the stream ended was delivered as a message (%d data bytes)", n, k, got)
+	}
+	return nil
+}
+
 var vpC31Big []byte // TransportMessageMaxSize+64 bytes, allocated once
 
 func vpC31BigBuf() []byte {
@@ -481,8 +517,8 @@ func (r *vpC31Run) settle(rt *rapid.T, err error) bool {
 }
 
 func TestVP_C31_frame_roundtrip(t *testing.T) {
-	c := kit.New(t, "C31", "rapid: per case a fresh loopback QUIC pair and 3..8 drawn steps: frames of 1 B..4 MiB (thorough: ..32 MiB, incl. max-1/max) with seed-derived content in either direction through Send -> Receive; receiveWithLimit with a drawn limit and frame sizes at limit-1/limit/limit+1; raw headers announcing limit+1..2^32-1 bytes followed by a valid frame; Send of max+1.. bytes. Oracle: identical bytes/size/version; over-limit refused with the size verdict, no message, body left unread on the stream, < 8 MiB allocated for announcements > 32 MiB; Send refuses > max and writes nothing. non-trivial = frame >= 64 KiB delivered or a refusal observed; distinct by (step kind, size, seed, limit)")
-	c.Require("roundtrip", "limit-accept", "limit-reject", "oversize-header", "send-refused", "bad-limit",
+	c := kit.New(t, "C31", "rapid: per case a fresh loopback QUIC pair and 3..8 drawn steps: frames of 1 B..4 MiB (thorough: ..32 MiB, incl. max-1/max) with seed-derived content in either direction through Send -> Receive; receiveWithLimit with a drawn limit and frame sizes at limit-1/limit/limit+1; raw headers announcing limit+1..2^32-1 bytes followed by a valid frame; Send of max+1.. bytes; a frame of which only 0..n-1 bytes are written before the sender finishes its stream (last step of a pair). Oracle: a truncated frame is never delivered as a message; identical bytes/size/version; over-limit refused with the size verdict, no message, body left unread on the stream, < 8 MiB allocated for announcements > 32 MiB; Send refuses > max and writes nothing. non-trivial = frame >= 64 KiB delivered or a refusal observed; distinct by (step kind, size, seed, limit)")
+	c.Require("roundtrip", "limit-accept", "limit-reject", "oversize-header", "send-refused", "bad-limit", "truncated",
 		"size<=64B", "size<=64KiB", "size<=1MiB", "size<=4MiB", "dir-dialer-sends", "dir-acceptor-sends")
 	if kit.Thorough() {
 		c.Require("size>4MiB")
@@ -506,7 +542,7 @@ func TestVP_C31_frame_roundtrip(t *testing.T) {
 			src, dst := pair.ends(dir)
 			dirClass := []string{"dir-dialer-sends", "dir-acceptor-sends"}[dir]
 			seed := rapid.Uint64().Draw(rt, l+"seed")
-			switch rapid.SampledFrom([]string{"roundtrip", "roundtrip", "roundtrip", "limit", "limit", "oversize-header", "send-refused", "bad-limit"}).Draw(rt, l+"op") {
+			switch rapid.SampledFrom([]string{"roundtrip", "roundtrip", "roundtrip", "limit", "limit", "oversize-header", "send-refused", "bad-limit", "truncated"}).Draw(rt, l+"op") {
 			case "roundtrip":
 				n := vpC31Size(rt, l+"size")
 				if !run.settle(rt, vpC31Transfer(src, dst, vpC31Fill(seed, n), TransportMessageMaxSize)) {
@@ -552,6 +588,17 @@ func TestVP_C31_frame_roundtrip(t *testing.T) {
 					return
 				}
 				c.Case(fmt.Sprintf("big-%d-%d", dir, n), true, "send-refused", dirClass)
+			case "truncated":
+				n := vpC31Size(rt, l+"size")
+				if n < 2 {
+					n = 2
+				}
+				k := rapid.OneOf(rapid.SampledFrom([]int{0, 1, n - 1, n / 2}), rapid.IntRange(0, n-1)).Draw(rt, l+"sent")
+				if !run.settle(rt, vpC31Truncated(src, dst, n, k, seed)) {
+					return
+				}
+				c.Case(fmt.Sprintf("trunc-%d-%d-%d", dir, n, k), true, "truncated", dirClass)
+				return // the sending side of this pair is finished
 			case "bad-limit":
 				// limits outside 1..max are refused without touching the stream
 				bad := rapid.SampledFrom([]uint32{0, TransportMessageMaxSize + 1, 0xffffffff}).Draw(rt, l+"bad")
